@@ -93,6 +93,22 @@ def gen(rng, tier):
                "_tag": "frame/prefilled-elements/" + kind, "_nt": True,
                "_sig": "prefel|%s|%s|%d|%s|%s" % (kind, pol, len(ety["f"]), ",".join(k for k, _ in (setting["m"] if "m" in setting else [])) if isinstance(setting, dict) else "",
                                                  uopts[0]["o"] if uopts else "")}
+    # maps with several keys whose values are lists of structs, under every list policy (tag or option): the policy holds for
+    # every key, whatever the elements under the keys before it did
+    mrng = rng.fork("map-of-lists")
+    for _ in range(n // 10):
+        ety = TG.T("struct", f=[{"n": "P", "tag": "p", "v": "", "ty": TG.T("int")}, {"n": "H", "tag": "h", "v": "", "ty": TG.T("string")}])
+        fty = TG.T("map", e=TG.T("slice", e=ety))
+        pol = mrng.pick(["", ",append", ",prepend", ",replace", ",merge"])
+        keys = ["k%d" % i for i in range(2 + mrng.below(3))]
+        def oel(i): return {"st": [{"i": str(i)}, {"s": "o%d" % i}]}
+        old = {"st": [{"mp": {k: {"sl": [oel(j) for j in range(1 + mrng.below(2))]} for k in keys}}, {"s": "z0"}]}
+        setting = M([(k, A([M([("p", U(10 * (j + 1)))] + ([("h", S("n"))] if mrng.chance(0.5) else [])) for j in range(1 + mrng.below(2))])) for k in keys if mrng.chance(0.85)])
+        ty = TG.T("struct", f=[{"n": "M", "tag": "m" + pol, "v": "", "ty": fty}, {"n": "Z", "tag": "", "v": "", "ty": TG.T("string")}])
+        uopts = [opt(mrng.pick(["Append", "Prepend", "Replace", "ReplaceArr"]))] if mrng.chance(0.35) else []
+        yield {"k": "unpack", "ty": ty, "old": old, "from": M([("m", setting)]), "copts": [], "uopts": uopts,
+               "_tag": "frame/map-of-lists", "_nt": True,
+               "_sig": "mapoflists|%s|%d|%s|%d" % (pol, len(keys), uopts[0]["o"] if uopts else "", len(setting["m"]))}
     # the same struct type read under two tag namespaces (StructTag / ValidatorTag), one call after the other in one process:
     # which fields a call overwrites is decided by the options of that call alone
     arng = rng.fork("alt-tags")
